@@ -65,3 +65,47 @@ Definition c18_reframe (c : bytes * N * iframe) := let '(b, code, v) := c in chk
 (* Unreliable.WriteMsgUDP: (tube id, frame number, message, code, queued frame bytes) *)
 Definition c18_unrel_write (c : N * N * bytes * N * bytes) :=
   let '(id, no, m, code, b) := c in beq_res_bytes (unreliable_write id no m) code b.
+
+(* ---- key text forms and Go's base64.StdEncoding (Model/WireText.v) ---- *)
+From Hop Require Export WireText.
+(* (bytes, EncodeToString(bytes)) *)
+Definition c18_b64_encode (c : bytes * bytes) := beq_bytes (b64_encode (fst c)) (snd c).
+(* (text, code, DecodeString(text)) *)
+Definition c18_b64_decode (c : bytes * N * bytes) := let '(s, code, v) := c in chk_res beq_bytes (b64_decode s) code v.
+(* kind: 0 = DH (keys/dh.go), 1 = ML-KEM-512 (keys/kem.go), 2 = signing (keys/signatures.go) *)
+Definition key_format (kind : N) : bytes -> bytes :=
+  match kind with 0 => format_dh | 1 => format_kem | _ => format_sign end.
+Definition key_parse (kind : N) : bytes -> res bytes :=
+  match kind with 0 => parse_dh | 1 => parse_kem | _ => parse_sign end.
+(* (kind, key bytes, String()) *)
+Definition c18_key_format (c : N * bytes * bytes) := let '(kind, k, s) := c in beq_bytes (key_format kind k) s.
+(* (kind, text, code, bytes of the parsed key) *)
+Definition c18_key_parse (c : N * bytes * N * bytes) :=
+  let '(kind, s, code, v) := c in chk_res beq_bytes (key_parse kind s) code v.
+
+(* ---- extension round: Model/WireMore.v ---- *)
+From Hop Require Export WireMore.
+Definition c18_enc_status (c : option bytes * N * bytes) := let '(v, code, b) := c in beq_res_bytes (Ok (enc_status v)) code b.
+Definition c18_dec_status (c : bytes * N * option bytes * N) := let '(b, code, v, r) := c in chk_dec beq_status dec_status b code v r.
+Definition c18_enc_winsize (c : winsize * N * bytes) := let '(v, code, b) := c in beq_res_bytes (Ok (enc_ws v)) code b.
+Definition c18_dec_winsize (c : bytes * N * winsize * N) := let '(b, code, v, r) := c in chk_dec beq_ws dec_ws b code v r.
+(* HandleSize on a real pty: the size the pty has afterwards = the last size applied, or the harness's
+   sentinel (7, 9, 11, 13) when none was *)
+Definition ws_sentinel : winsize := Ws 7 9 11 13.
+Definition last_ws (l : list winsize) : winsize := last l ws_sentinel.
+Definition c18_dec_winloop (c : bytes * N * winsize * N) :=
+  let '(b, code, v, r) := c in
+  match val handle_size b with
+  | Ok (l, rest) => (code =? 0) && beq_ws (last_ws l) v && (len rest =? r)
+  | Err => code =? 1
+  | Panic => code =? 2
+  end.
+Definition c18_dec_uareply (c : bytes * N * bool * N) := let '(b, code, v, r) := c in chk_dec Bool.eqb dec_ua_reply b code v r.
+Definition c18_enc_proxyid (c : N * N * bytes) := let '(v, code, b) := c in beq_res_bytes (Ok [v]) code b.
+Definition c18_dec_proxyid (c : bytes * N * N * N) := let '(b, code, v, r) := c in chk_dec N.eqb dec_proxy_id b code v r.
+Definition c18_dec_intentreq (c : bytes * N * agmsg * N) := let '(b, code, v, r) := c in chk_dec beq_ag dec_intent_request b code v r.
+Definition c18_dec_intentcomm (c : bytes * N * agmsg * N) := let '(b, code, v, r) := c in chk_dec beq_ag dec_intent_comm b code v r.
+(* Unreliable.ReadMsgUDP: (buffer length, datagram, bytes copied, error-free) *)
+Definition c18_unrel_read (c : N * bytes * bytes * bool) :=
+  let '(cap, msg, out, ok) := c in
+  let r := unrel_read cap msg in beq_bytes (fst r) out && Bool.eqb (snd r) ok.
